@@ -222,6 +222,11 @@ def gen_cases(seed, tier):
         "new 0 vec;new 1 vec;set 0 C:0 2;set 0 O:0 0;set 1 C:0 2;set 1 O:18 0;eq 0 1;eq 1 0;set 1 O:0 0;eq 0 1",
         "new 0 vec;new 1 vec;set 0 C:13 1;set 0 C:0 6;set 0 H:0 12;gets 0 67;sidx 0 67;incs 0 67 -1;gets 0 67;set 1 C:0 5;set 1 C:13 1;set 1 H:0 12;eq 0 1",
     ]
+    corpus += [
+        # counts past 2^24 (odd ones are not representable in single precision): the mass is count * mass in double precision
+        "new 0 vec;set 0 C:0 16777217;fmass 0;set 0 H:0 33554433;fmass 0;fromkv 1 vec iterES O:18=16777219,C:13=20000001;fmass 1;add 2 0 1 ref;fmass 2;muli 1 -1 own;fmass 1",
+        "new 0 vec;set 0 H:0 50000001;fmass 0;iadd 0 H:0 -33222784;fmass 0;inc 0 C:12 16777217;fmass 0",
+    ]
     for i, c in enumerate(corpus):
         ops = c.split(";")
         cases.append(dict(kind="corpus", ops=ops, group=f"corpus{i}", nregs=3))
